@@ -11,6 +11,8 @@ def groups(tier):
             #  64-bit products ttl * 1e9 is not decided by cvc5 / z3 / SAT within 6 minutes even on an empty table, so it is not registered)
             Group('providers.sweep', entry='h_sweep', replay='sweep', backend=['sat', 'cadical', 'cvc5'], clause='sweep_expired keeps exactly the providers whose own deadline is in the future', **K),
             Group('providers.find', entry='h_find', replay='find', backend=['sat', 'cadical', 'cvc5'], clause='find_providers returns exactly the providers whose own deadline is in the future', **K),
+            # (a group for the 20-provider cap exists in the harness under -DCAPN=20 -- 21 symbolic providers through the insertion-sort model;
+            #  no back end finishes within 20 minutes, so it is not registered and the cap clause stays undecided)
             Group('providers.withdraw', entry='h_withdraw', replay='withdraw', backend=['sat', 'cadical', 'cvc5'], clause='withdraw_contact removes the named provider only', **K)]
 def replay(group, trace):
     """the REAL KademliaTable on a short provider history for the operation the group is about (TTL 0 s expires at once)"""
